@@ -875,7 +875,10 @@ class RTCSctpTransport(AsyncIOEventEmitter):
         # is this an init?
         init_chunk = len([x for x in chunks if isinstance(x, InitChunk)])
         if init_chunk:
-            assert len(chunks) == 1
+            # an INIT chunk must not be bundled with any other chunk
+            if len(chunks) != 1:
+                self.__log_debug("x INIT chunk bundled with other chunks, discarding")
+                return
             expected_tag = 0
         else:
             expected_tag = self._local_verification_tag
